@@ -10,9 +10,11 @@ package main
 import (
 	"fmt"
 	"math"
+	"net"
 	"strconv"
 	"strings"
 	"sync"
+	"time"
 
 	gio "github.com/whatap/golib/io"
 	"verif/harness/vh"
@@ -68,6 +70,8 @@ func genInt(r *vh.Rng, w uint) int64 {
 
 var floatBits = []uint64{0, 0x80000000, 0x7f800000, 0xff800000, 0x7fc00000, 0x7fc00001, 0xffc12345, 0x7f800001, 1, 0x007fffff, 0x3f800000, 0xffffffff}
 var doubleBits = []uint64{0, 0x8000000000000000, 0x7ff0000000000000, 0xfff0000000000000, 0x7ff8000000000000, 0x7ff8000000000001, 0xfff8123456789abc, 0x7ff0000000000001, 1, 0x000fffffffffffff, 0x3ff0000000000000, 0xffffffffffffffff}
+
+var streamBudget = 400 // programs also read back through a fragmented net.Pipe
 
 var bigBudget = 24 // at most this many 1 MiB payloads per run (memory)
 
@@ -435,6 +439,45 @@ func readBack(ops []op, data []byte) string {
 	return res
 }
 
+// readBackStream decodes through the connection-backed input (NewDataInputNet) while the bytes
+// arrive in fragments of random sizes; a field may be split over any number of fragments.
+func readBackStream(ops []op, data []byte, rng *vh.Rng) string {
+	c1, c2 := net.Pipe()
+	maxFrag := rng.PickInt([]int{1, 2, 3, 7, 64, 4096})
+	seed := rng.Fork()
+	go func() {
+		defer c1.Close()
+		for off := 0; off < len(data); {
+			n := 1 + seed.Intn(maxFrag)
+			if off+n > len(data) {
+				n = len(data) - off
+			}
+			if _, err := c1.Write(data[off : off+n]); err != nil {
+				return
+			}
+			off += n
+		}
+	}()
+	defer c2.Close()
+	var res string
+	o := vh.GuardTimeout(20*time.Second, func() {
+		in := gio.NewDataInputNet(c2)
+		ss := make([]string, len(ops))
+		for i, x := range ops {
+			ss[i] = read(in, x.kind)
+		}
+		l := strings.Join(ss, ";")
+		if len(ops) == 0 {
+			l = "-"
+		}
+		res = fmt.Sprintf("ok %s 0", l)
+	})
+	if !o.OK() {
+		return "fail:" + o.String()
+	}
+	return res
+}
+
 func main() {
 	env, rep := vh.Parse("C01")
 	rng := vh.NewRng(env.Seed)
@@ -527,6 +570,15 @@ func main() {
 		if back != want {
 			rep.Fail("property", "roundtrip:"+firstDiffKind(ops, back, want), "read back differs from what was written",
 				map[string]interface{}{"ops": p.line, "bytes": vh.Hex(p.bytes), "read": vh.Clip(back, 2000)})
+		}
+		// the same bytes delivered through a connection in fragments (stream input path)
+		if len(p.bytes) > 0 && len(p.bytes) < 200000 && streamBudget > 0 && (tag != "random" || rng.Chance(25)) {
+			streamBudget--
+			rep.Count("stream-read")
+			if sb := readBackStream(ops, p.bytes, rng); sb != want {
+				rep.Fail("property", "stream-roundtrip:"+firstDiffKind(ops, sb, want), "read back over a fragmented connection differs from what was written",
+					map[string]interface{}{"ops": vh.Clip(p.line, 2000), "bytes": vh.Clip(vh.Hex(p.bytes), 2000), "read": vh.Clip(sb, 2000)})
+			}
 		}
 		// the model as reference encoder and reference decoder
 		add("W "+p.line, fmt.Sprintf("%s %d", vh.Hex(p.bytes), p.size), "encode:"+kindsOf(ops), p.line)
